@@ -56,7 +56,7 @@ fn main() {
         ohmc::props::c10::check_pair(&ll[(i / nlr) as usize], &lr[(i % nlr) as usize], loc)
     }));
     // structured gluing of many nodes into one class (long zig-zag chains, wire orders that grow deep union-find trees)
-    let gp = ohmc::props::structured::gluing_pairs(if quick { 12 } else { 24 }, if quick { 6 } else { 7 });
+    let gp = ohmc::props::structured::gluing_pairs(if quick { 12 } else { 24 }, if quick { 7 } else { 8 });
     ctx.run_slice(Slice::new(format!("structured-gluing[{} pairs, up to {} nodes]", gp.len(), gp.iter().map(|p| p.1.nodes.len() + p.2.nodes.len()).max().unwrap_or(0)), gp.len() as u64, |i, loc| check_pair::<B>(&gp[i as usize].1, &gp[i as usize].2, loc)).heavy());
     // large operands (sizes 33 .. 129): every ordered pair of the shape families (composable or not)
     let sizes: Vec<usize> = if quick { vec![33, 65] } else { vec![33, 64, 65, 129] };
